@@ -11,4 +11,6 @@ case "$P" in
   *) (cd "$D" && patch -s -p1 --no-backup-if-mismatch < "$P") ;;
 esac
 cd /verif
-VERIF_EVIDENCE_DIR="$D/.evidence" VERIF_REPLAY_DIR="$D/.replays" VERIF_REPO="$D" ./check "$ID" "$@" 2>&1 | grep -v '^\s*$' | grep -E "VIOLATION|KNOWN|OK property|INCONCLUSIVE|VERIF-KEY|history|INFRA|panic|data race inside" | head -12
+VERIF_EVIDENCE_DIR="$D/.evidence" VERIF_REPLAY_DIR="$D/.replays" VERIF_REPO="$D" ./check "$ID" "$@" > "$D/.out" 2>&1 || true
+grep -v '^\s*$' "$D/.out" | grep -E "VERIF-KEY|history|INFRA|panic|data race inside" | head -10
+grep -E "^(VIOLATION|KNOWN|OK property|INCONCLUSIVE)" "$D/.out" | head -6
